@@ -308,84 +308,102 @@ theorem pairwiseB_of (ok : Rec → Rec → Bool) (l : List Rec) (h : l.Pairwise 
     simp only [pairwiseB, Bool.and_eq_true, List.all_eq_true]
     exact ⟨h.1, ih h.2⟩
 
-/-- decidable necessary condition for the answer to a full read: as many records as carry the
-    attribute, and no later record strictly before an earlier one -/
-def fullOk (s : Slot) (asc : Bool) (res store : List Rec) : Bool :=
-  res.length == (store.filter (carries s)).length && pairwiseB (fun a b => !lessPure s asc b a) res
+/-- an unpaged read (no offset, no limit) with a window -/
+def windowRead (s : Slot) (asc : Bool) (fromT toT : Option Int) : Query :=
+  { slot := s, asc := asc, from_ := 0, limit := 0, fromT := fromT, toT := toT }
 
-theorem inRange_full (s : Slot) (asc : Bool) (l : List Rec) : inRange (fullRead s asc) l = l := by
+/-- decidable necessary condition for the answer to an unpaged read: as many records as carry the
+    attribute inside the window, and no later record strictly before an earlier one -/
+def unpagedOk (q : Query) (res store : List Rec) : Bool :=
+  res.length == (inRange q (store.filter (carries q.slot))).length &&
+  pairwiseB (fun a b => !lessPure q.slot q.asc b a) res
+
+theorem inRange_perm (q : Query) (l₁ l₂ : List Rec) (h : l₁.Perm l₂) : (inRange q l₁).Perm (inRange q l₂) := by
   unfold inRange
   split
-  · rw [List.filter_eq_self]; intro a _; simp [inWindow, fullRead]
-  · rfl
+  · exact h.filter _
+  · exact h
 
-theorem page_full (s : Slot) (asc : Bool) (l : List Rec) : page (fullRead s asc) l = l := by
-  simp [page, fullRead]
-
-theorem fullOk_of_correct (s : Slot) (asc : Bool) (res store : List Rec)
-    (h : CorrectPage res (fullRead s asc) store) : fullOk s asc res store = true := by
+theorem unpagedOk_of_correct (q : Query) (res store : List Rec) (h0 : q.from_ = 0) (h1 : q.limit = 0)
+    (h : CorrectPage res q store) : unpagedOk q res store = true := by
   obtain ⟨l, hperm, hsorted, hres⟩ := h
-  have hl : res = l := by
-    rw [hres, inRange_full, page_full]
-  subst hl
-  simp only [fullOk, Bool.and_eq_true, beq_iff_eq]
-  refine ⟨hperm.length_eq, pairwiseB_of _ _ ?_⟩
-  refine hsorted.imp ?_
-  intro a b hab
-  have : ordB s asc a b := (ordB_iff_sle s asc a b).mpr (by
-    unfold ord at hab
-    cases asc <;> simpa [fullRead] using hab)
-  simpa [ordB] using this
+  have hl : res = inRange q l := by
+    rw [hres]; simp [page, h0, h1]
+  simp only [unpagedOk, Bool.and_eq_true, beq_iff_eq]
+  refine ⟨?_, pairwiseB_of _ _ ?_⟩
+  · rw [hl]; exact (inRange_perm q _ _ hperm).length_eq
+  · have hsub : res.Sublist l := by
+      rw [hl]; unfold inRange; split
+      · exact List.filter_sublist
+      · exact List.Sublist.refl _
+    refine (hsorted.sublist hsub).imp ?_
+    intro a b hab
+    have : ordB q.slot q.asc a b := (ordB_iff_sle q.slot q.asc a b).mpr (by
+      unfold ord at hab
+      cases hq : q.asc <;> simpa [hq] using hab)
+    simpa [ordB] using this
 
-/-- run history `h`, then read index `s` in full: does the model's answer fail `fullOk`? -/
-def witnessFails (cfg : Cfg) (h : List Op) (s : Slot) (asc : Bool) : Bool :=
-  match answer cfg (run cfg h) (fullRead s asc) with
-  | some res => !fullOk s asc res (run cfg h).store
+/-- run history `h`, then answer the unpaged read `q`: does the model's answer fail `unpagedOk`? -/
+def witnessFails (cfg : Cfg) (h : List Op) (q : Query) : Bool :=
+  q.from_ == 0 && q.limit == 0 &&
+  match answer cfg (run cfg h) q with
+  | some res => !unpagedOk q res (run cfg h).store
   | none => false
 
 /-- a failing witness refutes the property for those facts — whatever the facts are -/
-theorem refutes_of_witness (cfg : Cfg) (h : List Op) (s : Slot) (asc : Bool)
-    (hw : witnessFails cfg h s asc = true) : ¬ Holds cfg := by
+theorem refutes_of_witness (cfg : Cfg) (h : List Op) (q : Query)
+    (hw : witnessFails cfg h q = true) : ¬ Holds cfg := by
   intro hh
   unfold witnessFails at hw
-  cases ha : answer cfg (run cfg h) (fullRead s asc) with
+  simp only [Bool.and_eq_true, beq_iff_eq] at hw
+  obtain ⟨⟨h0, h1⟩, hw⟩ := hw
+  cases ha : answer cfg (run cfg h) q with
   | none => simp [ha] at hw
   | some res =>
-    have := fullOk_of_correct s asc res _ (hh h (fullRead s asc) res ha)
+    have := unpagedOk_of_correct q res _ h0 h1 (hh h q res ha)
     simp [ha, this] at hw
 
 def setOp (k : String) (t : CT) (v c u e : Int) : Op :=
   .set { key := k, ct := t, val := v, created := c, updated := u, expire := e }
 
-/-- (finding id, history, index read in full afterwards) — each reproduced on the real code by
-    the corpus cases 0–5 of harness/c07.go -/
-def witnesses : List (String × List Op × Slot × Bool) := [
+/-- (finding id, history, unpaged read afterwards).  The first five fail under the current facts
+    (each reproduced on the real code by corpus cases 0–5 of harness/c07.go); the others fail only
+    under facts the current tree does not have (a `<=` in a binary search, a cold build without
+    the zero filter) and make such a change classify as `violated` with a named finding. -/
+def witnesses : List (String × List Op × Query) := [
   ("C07-updated-update-stale",
     [setOp "k1" .i64 1 1 1 0, setOp "k2" .i64 2 2 2 0, .read (fullRead .updated true), setOp "k1" .i64 1 0 5 0],
-    .updated, true),
+    fullRead .updated true),
   ("C07-created-update-stale",
     [setOp "k1" .i64 1 1 0 0, setOp "k2" .i64 2 2 0 0, .read (fullRead .created true), setOp "k1" .i64 1 5 0 0],
-    .created, true),
+    fullRead .created true),
   ("C07-value-update-stale",
     [setOp "k1" .i64 1 0 0 0, setOp "k2" .i64 2 0 0 0, .read (fullRead (.value .i64) true), setOp "k1" .i64 3 0 0 0],
-    .value .i64, true),
+    fullRead (.value .i64) true),
   ("C07-value-insert-wrong-comparator",
     [setOp "k1" .f64 1 0 0 0, setOp "k2" .f64 3 0 0 0, .read (fullRead (.value .f64) true), setOp "k3" .f64 2 0 0 0],
-    .value .f64, true),
+    fullRead (.value .f64) true),
   ("C07-value-index-mixed-types",
     [setOp "k1" .str 1 0 0 0, setOp "k2" .f64 3 0 0 0],
-    .value .str, true)]
+    fullRead (.value .str) true),
+  ("C07-window-bounds-operator", [setOp "k1" .i64 1 3 0 0, setOp "k2" .i64 2 5 0 0], windowRead .created true (some 3) none),
+  ("C07-window-bounds-operator", [setOp "k1" .i64 1 3 0 0, setOp "k2" .i64 2 5 0 0], windowRead .created true none (some 5)),
+  ("C07-window-bounds-operator", [setOp "k1" .i64 1 3 0 0, setOp "k2" .i64 2 5 0 0], windowRead .created false none (some 5)),
+  ("C07-window-bounds-operator", [setOp "k1" .i64 1 3 0 0, setOp "k2" .i64 2 5 0 0], windowRead .created false (some 3) none),
+  ("C07-cold-build-no-zero-filter", [setOp "k1" .i64 1 0 0 0, setOp "k2" .i64 2 2 2 2], fullRead .created true),
+  ("C07-cold-build-no-zero-filter", [setOp "k1" .i64 1 0 0 0, setOp "k2" .i64 2 2 2 2], fullRead .updated true),
+  ("C07-cold-build-no-zero-filter", [setOp "k1" .i64 1 0 0 0, setOp "k2" .i64 2 2 2 2], fullRead .expire true)]
 
 /-- the findings whose witness fails under `cfg` -/
 def findings (cfg : Cfg) : List String :=
-  (witnesses.filter (fun w => witnessFails cfg w.2.1 w.2.2.1 w.2.2.2)).map (·.1)
+  ((witnesses.filter (fun w => witnessFails cfg w.2.1 w.2.2)).map (·.1)).eraseDups
 
 theorem refutes_of_findings (cfg : Cfg) (h : findings cfg ≠ []) : ¬ Holds cfg := by
   unfold findings at h
-  have : witnesses.filter (fun w => witnessFails cfg w.2.1 w.2.2.1 w.2.2.2) ≠ [] := by
-    intro he; rw [he] at h; exact h rfl
+  have : witnesses.filter (fun w => witnessFails cfg w.2.1 w.2.2) ≠ [] := by
+    intro he; rw [he] at h; exact h (by simp)
   obtain ⟨w, hw⟩ := List.exists_mem_of_ne_nil _ this
-  exact refutes_of_witness cfg w.2.1 w.2.2.1 w.2.2.2 (List.mem_filter.mp hw).2
+  exact refutes_of_witness cfg w.2.1 w.2.2 (List.mem_filter.mp hw).2
 
 /-- the facts of the tree as of this writing -/
 def current : Cfg := {
@@ -438,6 +456,10 @@ theorem refutes_current : ¬ Holds current := refutes_of_findings current (by rw
 /-- non-vacuity of the full theorem: the repaired facts are sound, and none of the witnesses fails -/
 example : goodB repaired = true := by decide
 example : findings repaired = [] := by decide
+/-- the extra witnesses do fail under the facts they are meant for -/
+example : findings { repaired with bsAscFrom := .le } = ["C07-window-bounds-operator"] := by decide
+example : findings { repaired with bsDescTo := .le } = ["C07-window-bounds-operator"] := by decide
+example : findings { repaired with coldFilterExpire := false } = ["C07-cold-build-no-zero-filter"] := by decide
 theorem holds_repaired : Holds repaired := holds_of_good repaired (by decide)
 
 /-- non-vacuity of the partial theorem for the current facts: the key and expiration-time
